@@ -59,6 +59,26 @@ type c03Case struct {
 	// checksum (Checksum) as the subject. A cache keyed by such a fingerprint would answer with the wrong profile.
 	Before   string `json:"before,omitempty"`
 	Checksum string `json:"checksum,omitempty"`
+	// Contributed: embedded Rego puts one more result straight into a level set (a check about the document as a
+	// whole): level, the validation it is filed under, and whether the entry is the typed object the library's own
+	// helper builds or a plain object with the four result members
+	Contributed *c03Contributed `json:"contributed,omitempty"`
+}
+
+type c03Contributed struct {
+	Level string `json:"level"`
+	Name  string `json:"name"`
+	Typed bool   `json:"typed"`
+}
+
+const c03DocumentID = "http://ex.org/document"
+
+func (x *c03Contributed) rego() string {
+	entry := `{"sourceShapeName": "` + x.Name + `", "focusNode": "` + c03DocumentID + `", "resultMessage": "about the document", "trace": []}`
+	if x.Typed {
+		entry = `error("` + x.Name + `", {"@id": "` + c03DocumentID + `"}, "about the document", [trace("documentCheck", "http://ex.org/v#none", {"@id": "` + c03DocumentID + `"}, {"negated": false})])`
+	}
+	return x.Level + "[matches] {\n  count(input) >= 0\n  matches := " + entry + "\n}\n"
 }
 
 func genC03(t *rapid.T) c03Case {
@@ -126,6 +146,18 @@ func genC03(t *rapid.T) c03Case {
 	c.CfgA = genRepCfg(t, "a")
 	c.CfgB = genRepCfg(t, "b")
 	c.ProfileText = c.Profile.ToY().Print(m.YOpts{})
+	// a result contributed by embedded Rego, at a level that has a listed validation (an element rule needs the
+	// level to be a set)
+	var listed []m.Validation
+	for _, v := range c.Profile.Validations {
+		if v.Level != "" && !strings.ContainsAny(v.Name, "\"\\") {
+			listed = append(listed, v)
+		}
+	}
+	if len(listed) > 0 && rapid.IntRange(0, 4).Draw(t, "contributed") == 0 {
+		v := listed[rapid.IntRange(0, len(listed)-1).Draw(t, "contributedTo")]
+		c.Contributed = &c03Contributed{Level: v.Level, Name: v.Name, Typed: rapid.Bool().Draw(t, "contributedTyped")}
+	}
 	c.DataText = c.Graph.JSONLD(genLDOpts(t, len(c.Graph.Nodes)))
 	if len(c.Profile.Validations) > 0 && rapid.IntRange(0, 5).Draw(t, "collidingPredecessor") == 0 {
 		next := map[string]string{"violation": "warning", "warning": "info", "info": "violation", "": ""}
@@ -179,6 +211,13 @@ func decideC03(c c03Case) ev.Verdict {
 	if err := m.YAMLMatches(c.ProfileText, c.Profile.ToY()); err != nil {
 		return ev.Verdict{Discard: true, Detail: err.Error()}
 	}
+	if c.Contributed != nil {
+		ext := "rego_extensions: |\n  " + strings.ReplaceAll(strings.TrimSuffix(c.Contributed.rego(), "\n"), "\n", "\n  ") + "\n"
+		c.ProfileText += ext
+		if c.Before != "" {
+			c.Before = "" // the twin was built for the text without the extension
+		}
+	}
 	if c.Before != "" {
 		if len(c.Before) != len(c.ProfileText) || m.Checksum(c.Checksum, c.Before) != m.Checksum(c.Checksum, c.ProfileText) {
 			return ev.Verdict{Discard: true, Detail: "the predecessor does not collide with the subject"}
@@ -211,6 +250,10 @@ func decideC03(c c03Case) ev.Verdict {
 			want = append(want, strings.Title(v.Level)+"|"+v.Name+"|"+id)
 			perLevel[v.Level]++
 		}
+	}
+	if c.Contributed != nil {
+		want = append(want, strings.Title(c.Contributed.Level)+"|"+c.Contributed.Name+"|"+c03DocumentID)
+		perLevel[c.Contributed.Level]++
 	}
 	for lvl, names := range c.Listed {
 		for _, name := range names {
@@ -294,6 +337,9 @@ func decideC03(c c03Case) ev.Verdict {
 	}
 	if c.Before != "" {
 		v.Labels = append(v.Labels, "after-a-profile-with-the-same-length-and-"+c.Checksum)
+	}
+	if c.Contributed != nil {
+		v.Labels = append(v.Labels, fmt.Sprintf("result-contributed-by-embedded-rego:typed=%v", c.Contributed.Typed))
 	}
 	if len(c.Profile.Undefined) > 0 {
 		v.Labels = append(v.Labels, "undefined-name-listed")
